@@ -35,6 +35,9 @@ fn arg_ext(mut a: Arg, items: &[Sx]) -> Arg {
             "x-hide-short" => a.hide_short_help(true),
             "x-hide-long" => a.hide_long_help(true),
             "x-hide-pv" => a.hide_possible_values(true),
+            "x-hide-env" => a.hide_env(true),
+            "x-hide-env-values" => a.hide_env_values(true),
+            "x-hide-default" => a.hide_default_value(true),
             "x-next-line" => a.next_line_help(true),
             "x-order" => a.display_order(l[0].num() as usize),
             "x-valname" => {
@@ -155,6 +158,34 @@ fn block_pvs(block: &[&str]) -> Vec<String> {
     out
 }
 
+/// the `spec_vals` part of one row's text block (`[env: ..] [default: ..] [aliases: ..] [short aliases: ..]
+/// [possible values: ..]`), as whitespace-delimited tokens: from the first token that opens one of the
+/// groups to the end of the text, without the long-form list (`Possible values:` and what follows it).
+/// Wrapping only replaces spaces by line breaks, so the token sequence does not depend on the width.
+fn block_spec(block: &[&str]) -> Vec<String> {
+    let t: Vec<&str> = block.iter().flat_map(|l| l.split_whitespace()).collect();
+    let opens = |i: usize| -> bool {
+        let nxt = t.get(i + 1).copied().unwrap_or("");
+        match t[i] {
+            "[env:" | "[default:" | "[aliases:" => true,
+            "[short" => nxt == "aliases:",
+            "[possible" => nxt == "values:",
+            _ => false,
+        }
+    };
+    let Some(start) = (0..t.len()).find(|&i| opens(i)) else {
+        return vec![];
+    };
+    let mut end = t.len();
+    for i in start..t.len() {
+        if t[i] == "Possible" && t.get(i + 1).copied() == Some("values:") {
+            end = i;
+            break;
+        }
+    }
+    t[start..end].iter().map(|x| x.to_string()).collect()
+}
+
 /// canonical projection of a rendered help screen
 fn project_help(text: &str) -> String {
     let lines: Vec<&str> = text.split('\n').collect();
@@ -210,7 +241,15 @@ fn project_help(text: &str) -> String {
                 };
                 let pvs = block_pvs(block);
                 let pvs: Vec<&str> = pvs.iter().map(|s| s.as_str()).collect();
-                out.push_str(&format!(" (row {} {} (pv {}))", hex(row_key(l).as_bytes()), col, toks(&pvs)));
+                let spec = block_spec(block);
+                let spec: Vec<&str> = spec.iter().map(|s| s.as_str()).collect();
+                out.push_str(&format!(
+                    " (row {} {} (pv {}) (spec {}))",
+                    hex(row_key(l).as_bytes()),
+                    col,
+                    toks(&pvs),
+                    toks(&spec)
+                ));
                 i = j;
             } else {
                 i += 1;
